@@ -45,11 +45,20 @@ GROUPS = {
         nontrivial='histories of at least two reports',
         functions=['Client::add_report_history_and_set_preferred_relay', 'RelayLatencies::{update_relay, merge, iter, get}'],
     ),
+    # second line behind the Verus unit datagrams_split
+    'datagrams_split_bx': dict(
+        unit='datagrams_split.rs', props=['C16'],
+        bounds=dict(quick=['24', '0'], thorough=['64', '0']),
+        space='every well-formed batch of 0..={0} bytes with segment size none/1/2/3/4/7/10, with and without an ECN mark, drained by repeated '
+              'take_segments(n) for n in 1, 2, 3, 5, usize::MAX',
+        nontrivial='batches that carry a segment size',
+        functions=['Datagrams::take_segments'],
+    ),
     # second line behind the Verus unit builder_bind
     'builder_bind_bx': dict(
         unit='builder_bind.rs', props=['C20'],
         bounds=dict(quick=['3', '0'], thorough=['4', '0']),
-        space='every multiset of at most {0} bind calls over 12 (family, prefix length, explicit default flag) combinations — implicit default (/0), '
+        space='every multiset of at most {0} bind calls over 20 (family, prefix length, explicit default flag, is_required) combinations — implicit default (/0), '
               'non-default (/24), explicit default, explicit non-default /0, invalid prefix, full-length explicit default, for IPv4 and IPv6 — each in EVERY order',
         nontrivial='sequences of at least two bind calls',
         functions=['Builder::bind_addr_with_opts'],
